@@ -25,6 +25,15 @@ def parsePieces (s : String) : R (List Piece) :=
 /-- `msp <k> <p> <rc> <perm|default> <container> <read,read,…>` -/
 def handle (args : List String) (impl : String) : R Ans :=
   match args with
+  | ["sscan", k, p, rcm, perm, read] => do
+    -- the deprecated `simple_scan`
+    let k ← nat k; let p ← nat p; let rcm ← bool rcm
+    let perm ← natList perm
+    let r ← digits read
+    let model := match simpleScan k p r.toArray perm.toArray rcm with
+      | none => "panic"
+      | some ivs => if ivs.isEmpty then "-" else ";".intercalate (ivs.map fun (b, s, l) => s!"{b}:{s}:{l}")
+    pure { model, verdict := "ok" }
   | ["msp", k, p, rcm, perm, container, reads] => do
     let k ← nat k; let p ← nat p; let rcm ← bool rcm
     let perm ← if perm == "default" then pure none else do pure (some (← natList perm).toArray)
